@@ -198,6 +198,8 @@ def run_check(pid: str, tier: str, repo_root=None, seed=0):
             else:
                 undecided.append((ob["id"], ob.get("reason", "solver returned unknown")))
                 unknown_funcs.setdefault(res["function"], []).append(ob["id"])
+    undecided = list(dict.fromkeys(undecided))        # shards of one function repeat its reasons
+    errors = list(dict.fromkeys(errors))
     if n_obl == 0:
         errors.append((pid, "zero obligations generated"))
     lines = []
